@@ -95,6 +95,8 @@ def ite(c, a, b, loc=None):
     return a
   if is_const(c):
     return a if cval(c) else b
+  if c.op == 'un' and c.args[0] == 'not':      # canonical polarity: ite(not c, a, b) == ite(c, b, a)
+    return ite(c.args[1], b, a, loc=loc)
   return T('ite', c, a, b, loc=loc)
 
 
